@@ -285,6 +285,9 @@ func NewReporter(opts Options) (Reporter, error) {
 		stringInterner:  cache.NewStringInterner(),
 		tagCache:        cache.NewTagCache(),
 	}
+	// n.b. Initialise the cached clock here: timeLoop may not have run yet
+	//      when the first metric is reported.
+	r.now.Store(time.Now().UnixNano())
 
 	internalTags := map[string]string{
 		"version":  tally.Version,
